@@ -295,7 +295,9 @@ fn script_for(sigs: &[Sig], n: usize) -> Vec<Step> {
 /// Replay a schedule on fresh iterators; returns the item / vars produced by its last action
 fn replay_schedule(p: &Prog2, k: usize, schedule: &[Act2]) -> (Option<ObsItem>, Option<Vec<(String, i64)>>) {
     let script = script_for(&p.sigs, 64);
+    // drivers are created before the iterators that borrow them (and so dropped after them)
     let mut drivers: Vec<ScriptDriver<'_, true>> = (0..k).map(|_| ScriptDriver::<true>::new(&p.sigs, &script)).collect();
+    let mut fresh: Vec<ScriptDriver<'_, true>> = (0..k).map(|_| ScriptDriver::<true>::new(&p.sigs, &script)).collect();
     hooks::set_seed_override(Some(5));
     let mut last = (None, None);
     let r = guard(DEFAULT_BUDGET, || {
@@ -310,7 +312,6 @@ fn replay_schedule(p: &Prog2, k: usize, schedule: &[Act2]) -> (Option<ObsItem>, 
             let d = s.take().unwrap();
             iters.push(p.tc.try_iter(d).ok());
         }
-        let mut fresh: Vec<ScriptDriver<'_, true>> = (0..k).map(|_| ScriptDriver::<true>::new(&p.sigs, &script)).collect();
         let mut fresh_refs: Vec<Option<&mut ScriptDriver<'_, true>>> = fresh.iter_mut().map(Some).collect();
         let mut out = (None, None);
         for a in schedule {
